@@ -16,19 +16,26 @@ ASSUMPTIONS = [
 META = {
     "text": "Theorems (Coq, all values / all byte strings, no size bound): for the serde primitives (single-BE int64 with "
             "trimmedArray incl. negatives, single-byte-length and var-length values with range checks, readArrayOf) and "
-            "for Address, Coin, Output, BtcTx, BtcBlock (raw + vbk), VbkBlock (raw + vbk), MerklePath, VbkMerklePath, "
-            "PublicationData, VbkTx, VbkPopTx, ATV, VTB, PopData: decode(encode x ++ rest) = (x, rest) for every "
-            "well-formed x; whatever decodes is well-formed; estimateSize x = |encode x|; re-encoding a decoded value "
-            "decodes to the same value (value stability, not byte equality: the decoders accept non-canonical "
-            "encodings); canonical encodings are injective. The executable model is extracted and compared with the "
-            "rebuilt library on boundary-aimed values (encodings must be byte-identical, estimateSize equal) and on "
-            "byte strings (decoded values identical); the implementation's own round-trip oracle runs on every case.",
-    "note": "Trusted: Coq kernel, extraction (ExtrOcamlBasic), OCaml driver incl. its sha256/base58 address check, C++ "
-            "harness, value text format, generators, tools/gen_consts.py (cross-checked against the compiled headers). "
-            "_partial: round trip needs `fits` (canonical sizes of nested buffers within the limit of their length "
-            "prefix), which is NOT implied by decodability for VbkPopTx/VTB/PopData at multi-megabyte sizes; "
-            "AltBlock, endorsements, keystone/context-info containers, StoredBlockIndex/addons and BFI wire types are "
-            "not modelled (not covered by this check); ids only via the implementation's oracle.",
+            "for 27 codecs — Address, Coin, Output, BtcTx, BtcBlock (raw + vbk), VbkBlock (raw + vbk), AltBlock, "
+            "KeystoneContainer, ContextInfoContainer, AuthenticatedContextInfoContainer, MerklePath, VbkMerklePath, "
+            "PublicationData, VbkTx, VbkPopTx, ATV, VTB, PopData, VbkEndorsement, AltEndorsement, "
+            "StoredBlockIndex<Btc|Vbk|Alt> with their stored addons and PopState: decode(encode x ++ rest) = (x, rest) for "
+            "every well-formed x; whatever decodes is well-formed; estimateSize x = |encode x|; re-encoding a decoded value "
+            "decodes to the same value (value stability, not byte equality: the decoders accept non-canonical encodings); "
+            "canonical encodings are injective. Unconditional (c11_full) for 17 of them; for MerklePath, VbkTx, VbkPopTx, "
+            "ATV, VTB, PopData under the explicit premise `fits` (see note). The executable model is extracted and compared "
+            "with the rebuilt library on boundary-aimed values (encodings byte-identical, estimateSize equal) and on byte "
+            "strings incl. hostile variants (decoded values identical); the implementation's own round-trip/size/hash "
+            "oracle runs on every case.",
+    "note": "Trusted: Coq kernel, extraction (ExtrOcamlBasic), OCaml driver incl. its sha256/base58 address check and the "
+            "id-order canonicalisation of PopState, C++ harness, value text format, generators, tools/gen_consts.py "
+            "(cross-checked against the compiled headers on every run). _partial: for MerklePath/VbkTx/VbkPopTx/ATV/VTB/"
+            "PopData round trip and stability need `fits` (canonical size of each nested buffer within the limit of its "
+            "length prefix); it is not implied by decodability (the decoder accepts shorter non-canonical encodings; "
+            "MAX_PUBLICATIONDATA_SIZE is 6 bytes smaller than the largest canonical PublicationData). Not modelled: BFI "
+            "wire types, PopPayouts, ids/hashes (content-only dependence of VbkTx/VbkPopTx/BtcTx/BtcBlock hashes is "
+            "checked by the implementation oracle; ATV/VTB/VbkBlock ids need progpow and are not recomputed). Stored "
+            "indices are decoded from bytes only (no enc op).",
     "technique": "Coq proof (codec combinators, structural induction) + extraction-based differential correspondence",
 }
 
